@@ -9,6 +9,10 @@ forests over the ACL's row alphabet:  (diff, patch) = annet.api._diff_and_patch(
      ancestors all survive, is still there with an identical subtree;
  (c) every covered row of `old` whose governing rule is cant_delete for all generators, and whose ancestors survive,
      is still there.
+Part E (end to end, mc/e2e.py): `annet patch` and the deploy job on every corpus sample's device configuration with
+ (1) only a generator written for another vendor, (2) a generator that yields nothing and declares no ACL, (3) one
+ generator owning a single command family (ACL '<head> ~' + '~ %global' below it) and yielding the sample's new rows
+ of that family: nothing outside the family - in (1) and (2) nothing at all - may appear in the patch or be queued.
 All pairs of one ACL run on ONE compiled ACL object (as the lru_cached compile_acl_text hands it out in production); a
 violation that a freshly compiled object does not show is reported with the earlier pair that makes it appear (history).
 """
@@ -64,6 +68,7 @@ def bound_text(tier):
 
 def setup():
     env.setup()
+    env.install_harness_deploy_driver()
 
 
 def blocks(tier, seed):
@@ -80,6 +85,8 @@ def blocks(tier, seed):
             out.append({"kind": "pair", "i": i, "j": core[(core.index(i) + 3) % len(core)], "vendor": v})
         for i in range(len(aclgen.merge_pairs())):
             out.append({"kind": "mpair", "i": i, "vendor": v})
+    for i in range(8):
+        out.append({"kind": "e2e", "i": i, "of": 8})
     return out
 
 
@@ -176,7 +183,75 @@ def judge(vendor, acl_level, acl_compiled, acl_text, old, new, report):
     return len(paths), interesting
 
 
+E2E_BLOCK_VENDORS = ("huawei", "huawei ce", "cisco", "arista", "nexus", "asr", "b4com", "aruba")
+
+
+def e2e_cases(sample):
+    """[(label, generator specs, owned head word or None)]"""
+    import re as _re
+    out = [("other-vendor-generator", [{"forest": sample["new"], "supports": False}], None),
+           ("no-acl-no-output", [{"forest": [], "acl": None}], None)]
+    heads = []
+    for row, _ in sample["new"] + sample["old"]:
+        h = row.split()[0]
+        if _re.fullmatch(r"[A-Za-z][A-Za-z0-9_-]*", h) and h not in heads and h not in ("no", "undo"):
+            heads.append(h)
+    for h in heads[:2]:
+        mine = [[r, c] for r, c in sample["new"] if r.split()[0] == h]
+        out.append(("one-family:" + h, [{"forest": mine, "acl": "\n        %s ~\n            ~ %%global\n        %s\n            ~ %%global\n    " % (h, h)}], h))
+    return out
+
+
+def check_e2e(sample, report):
+    from mc import e2e
+    n = 0
+    prefix = {"huawei": "undo", "huawei ce": "undo"}.get(sample["vendor_key"], "no")
+    for label, gens, head in e2e_cases(sample):
+        case = {"part": "E", "sample": sample["name"], "case": label}
+        with e2e.Session(sample["model"], sample["old"], gens) as ss:
+            if not ss.representable:
+                continue
+            try:
+                shown = ss.patch(False)
+                job = ss.deploy_job(False, False)
+            except Exception as e:  # noqa   (vendor logic may refuse a partial configuration; an outcome, judged elsewhere)
+                continue
+        n += 1
+        rows = []
+        for _label, text, _ in shown:
+            rows += [ln for ln in text.split("\n") if ln and not ln.startswith(" ")]
+        sent = [c for c in list(job.cmd_lines)[2:-1]] if job.cmd_lines else []
+        if head is None:
+            if rows or sent:
+                report({"kind": "e2e-patch-without-ownership", "case": label}, case,
+                       "the generators own nothing, yet annet patch prints %r and the deploy job lists %r" % (rows[:6], sent[:6]))
+            continue
+        # a removal is '<negation word> <row>' or, for some vendor logics, another verb in front of the row ('default ip ...')
+        bad = [r for r in rows if r.split()[0] != head and not (len(r.split()) > 1 and r.split()[1] == head)
+               and r not in ("commit", "quit", "exit")]
+        if bad:
+            report({"kind": "e2e-command-outside-owned-family", "case": "one-family"}, case,
+                   "the generator owns '%s ~' only; top-level patch rows outside it: %r (all: %r)" % (head, bad[:6], rows[:12]))
+    return n
+
+
+def run_e2e(block, ctx):
+    from mc import corpus
+    S = [s_ for s_ in corpus.samples() if s_["vendor_key"] in E2E_BLOCK_VENDORS]
+    for si in range(block["i"], len(S), block["of"]):
+        if ctx.expired():
+            return
+        n = check_e2e(S[si], ctx.violation)
+        ctx.evals += 2 * n
+        ctx.states += n
+        ctx.nontrivial += n
+        ctx.outcomes["E:cases=%d" % n] += 1
+        ctx.extra["e2e_runs"] += n
+
+
 def run_block(block, ctx):
+    if block.get("kind") == "e2e":
+        return run_e2e(block, ctx)
     from annet.annlib.rbparser.acl import compile_acl_text
     A = aclgen.acls(ctx.tier)
     vendor = block["vendor"]
@@ -264,6 +339,11 @@ def run_block(block, ctx):
 
 
 def replay(case):
+    if case.get("part") == "E":
+        from mc import corpus
+        out = []
+        check_e2e(next(x for x in corpus.samples() if x["name"] == case["sample"]), lambda sig, c, d="": out.append((sig, d)))
+        return [(sg, d) for sg, d in out]
     from annet.annlib.rbparser.acl import compile_acl_text
     # rebuild the reference level from the text: parse our own rendering
     level = level_from_text(case["acl_text"])
